@@ -19,6 +19,10 @@ Static clauses decided (necessary conditions of C14):
          again and rolls back instead of committing the part that was flushed earlier.
  DBKEY+  DBIndex.__init__ marks the column of every unique single-column index (three-valued evaluation of the flag expression under
          "unique, one column"): no further condition on the column withholds the inline UNIQUE.
+ ABORT   (round 8, shared with C17) "a conflict found at flush time leaves the database unchanged for that session": every exception edge of
+         cache.flush() / provider.commit() in SessionCache.flush_and_commit and SessionCache.commit, and of the flush loop in commit(), reaches
+         the raise only through rollback -- for every exception class (TransactionIntegrityError is not a DBException, so a handler narrowed
+         to DBException leaves the transaction with the rows flushed earlier open, and the session end commits them).
 """
 NOT_DECIDED = "database-level uniqueness; key swaps between objects across flushes"
 
@@ -28,6 +32,12 @@ CORE = 'pony.orm.core'
 def run(ctx):
     repo, cg = ctx.repo, ctx.cg
     guard_rule(ctx, 'C14-GUARD')
+    # ---------------------------------------------------------------- ABORT (shared with C17): a conflict found at flush time leaves the database
+    # unchanged for that session -- every way a flush failure leaves SessionCache.flush_and_commit / SessionCache.commit / commit() passes rollback,
+    # whatever the exception class (a key conflict surfaces as TransactionIntegrityError, which is not a DBException)
+    from . import C17
+    C17.abort_rules(ctx, P='C14-ABORT')
+    C17.global_commit_rules(ctx, P='C14-ABORT')
     sc = repo.fn(CORE, 'Entity._save_created_')
     g = cg.cfg(sc)
     ex = nodes_calling(g, lambda c: isinstance(c.func, ast.Attribute) and c.func.attr == '_exec_sql')
@@ -84,6 +94,7 @@ def run(ctx):
 
 
 MUTANTS = [
+    dict(id='C14-a1', file='pony/orm/core.py', fn='SessionCache.flush_and_commit', old='        try: cache.flush()\n        except:\n            cache.rollback()', new='        try: cache.flush()\n        except DBException:\n            cache.rollback()', expect='C14-ABORT.rollback-when-flush-fails'),
     dict(id='C14-k2', file='pony/orm/dbschema.py', fn='Column.get_sql', old="                if column.is_unique: append(case('UNIQUE'))", new="                if column.is_unique and not column.is_not_null: append(case('UNIQUE'))", expect='C14-DBKEY.column-flag'),
     dict(id='C14-k1', file='pony/orm/core.py', fn='Database.generate_mapping', old="                attrs = index.attrs\n                for attr in attrs: column_names.extend(attr.columns)", new="                attrs = index.attrs\n                if len(attrs) == 1 and attrs[0].index: continue\n                for attr in attrs: column_names.extend(attr.columns)", expect='C14-DBKEY'),
     dict(id='C14-m1', file='pony/orm/core.py', fn='SessionCache.update_simple_index',
